@@ -163,6 +163,11 @@ func unpackZip(
 		}
 	}
 
+	// An archive without a single entry describes no fileset at all (not even a root dir).
+	if prefilterBucket.Length() == 0 {
+		return api.WareID{}, api.WareID{}, Errorf(rio.ErrWareCorrupt, "corrupt zip: archive contains no entries")
+	}
+
 	// Cleanup dir times with a post-order traversal over the bucket.
 	//  Files and dirs placed inside dirs cause the parent's mtime to update, so we have to re-pave them.
 	if err := treewalk.Walk(filteredBucket.Iterator(), nil, func(node treewalk.Node) error {
